@@ -113,6 +113,8 @@ def make_solver(spec, seam):
                 final.append((None, z if spec.get("none_keep_z") else 0, 1 if status is None else status))
             else:
                 final.append((_cast(v, vectype), z, st if status is None else status))
+        seam[-1]["answers"] = [[None if v is None else [C._i(x) for x in np.asarray(v).ravel().tolist()], C._i(z), C._i(st)]
+                               for v, z, st in final]
         if lazy:
             def gen():
                 for x in final:
